@@ -35,6 +35,8 @@ impl LazyBigint {
 
     pub(crate) fn div_floor(self, rhs: Self) -> Self {
         match (self, rhs) {
+            // -2**63 / -1 does not fit 64 bits
+            (Self::Short(SmallInt::MIN), Self::Short(-1)) => Self::from(-BigInt::from(SmallInt::MIN)),
             (Self::Short(s1), Self::Short(s2)) => Self::Short(div_floor(s1, s2)),
             (Self::Short(s), Self::Long(b)) => Self::from(div_floor(BigInt::from(s), b)),
             (Self::Long(b), Self::Short(s)) => Self::from(div_floor(b, BigInt::from(s))),
@@ -44,6 +46,7 @@ impl LazyBigint {
 
     pub(crate) fn div_ceil(self, rhs: Self) -> Self {
         match (self, rhs) {
+            (Self::Short(SmallInt::MIN), Self::Short(-1)) => Self::from(-BigInt::from(SmallInt::MIN)),
             (Self::Short(s1), Self::Short(s2)) => Self::Short(div_ceil(s1, s2)),
             (Self::Short(s), Self::Long(b)) => Self::from(div_ceil(BigInt::from(s), b)),
             (Self::Long(b), Self::Short(s)) => Self::from(div_ceil(b, BigInt::from(s))),
@@ -377,6 +380,7 @@ impl Div for LazyBigint {
 
     fn div(self, rhs: Self) -> Self::Output {
         match (self, rhs) {
+            (Self::Short(SmallInt::MIN), Self::Short(-1)) => Self::from(-BigInt::from(SmallInt::MIN)),
             (Self::Short(s1), Self::Short(s2)) => Self::Short(s1 / s2),
             (Self::Short(s), Self::Long(b)) => Self::from(s / b),
             (Self::Long(b), Self::Short(s)) => Self::from(b / s),
